@@ -5,8 +5,8 @@
    rationals. cos/sin of the box angle enter the polygon as parameters c, s (with c^2+s^2 = 1 where needed), pi
    enters normalize_angle as a positive parameter; square roots never appear (the radius is compared squared). *)
 From Coq Require Import ZArith QArith Qabs Bool List.
-From Similari Require Import Base.Num Proofs.BoxProofs.
-From SimilariGen Require Import Consts Scalar ScalarBox.
+From Similari Require Import Base.Num Proofs.BoxProofs Proofs.KalmanBoxProofs.
+From SimilariGen Require Import Consts Scalar ScalarBox ScalarKalmanBox.
 Import ListNotations.
 Open Scope Q_scope.
 
@@ -104,6 +104,29 @@ Theorem normalize_angle_equiv :
   forall a pi : Q, 0 < pi -> exists k : Z, normalize_angle Qops a pi == a - inject_Z k * (2 * pi).
 Proof. intros a pi H. exact (proj2 (normalize_angle_spec a pi H)). Qed.
 
+(* --- box <-> Kalman state (utils/kalman.rs; the tracker stores boxes as state means and reads them back) ------- *)
+
+(* For every state mean (>= 5 components) the box read back has xc, yc, aspect, height = mean[0], mean[1], mean[3],
+   mean[4], and angle = None if mean[2] = 0, Some mean[2] otherwise - for negative angles too. *)
+Theorem kalman_state_to_box_exact :
+  forall mean : list Q, (5 <= length mean)%nat ->
+    exists u, kalman_state_to_ubox Qops mean = Some u /\ box_of_mean mean u.
+Proof. exact kalman_state_to_box_exact_lemma. Qed.
+
+(* box -> initiate (state mean) -> box returns the same box up to None-vs-Some(0): same centre, aspect and height, a
+   non-zero angle is kept whatever its sign, and the result == the original in both argument orders
+   (Universal2DBox::new gives the read-back box confidence 1; == on universal boxes does not look at the confidence). *)
+Theorem kalman_roundtrip_preserves_box :
+  forall b : Universal2DBox Qops,
+    exists u, kalman_state_to_ubox Qops (kalman_initiate_mean Qops b) = Some u /\
+      Universal2DBox_xc Qops u == Universal2DBox_xc Qops b /\ Universal2DBox_yc Qops u == Universal2DBox_yc Qops b /\
+      Universal2DBox_aspect Qops u == Universal2DBox_aspect Qops b /\ Universal2DBox_height Qops u == Universal2DBox_height Qops b /\
+      angle0 u == angle0 b /\
+      (forall a, Universal2DBox_angle Qops b = Some a -> ~ a == 0 -> exists a', Universal2DBox_angle Qops u = Some a' /\ a' == a) /\
+      (angle0 b == 0 -> Universal2DBox_angle Qops u = None) /\
+      ubox_eq Qops u b = true /\ ubox_eq Qops b u = true.
+Proof. exact kalman_roundtrip_preserves_box_lemma. Qed.
+
 (* --- non-vacuity ------------------------------------------------------------------------------------------------ *)
 (* a concrete ltwh box round-trips; width 1 vs width 100 (the pair on which the pre-fix code answered true in one
    argument order) is unequal in both orders; a 3-4-5 rotation gives a polygon of the box's area. *)
@@ -116,5 +139,7 @@ Example c19_nonvacuous :
   bbox_eq Qops b1 b100 = false /\ bbox_eq Qops b100 b1 = false /\
   bbox_eq Qops b (Build_BoundingBox Qops 1 2 (10 + (1#200000)) 4 (9#10)) = true /\
   Qeq_bool (polygon_area_of (ubox_vertices Qops u (3#5) (4#5))) 72 = true /\
-  normalize_angle Qops (-(1)) 3 = 5.
+  normalize_angle Qops (-(1)) 3 = 5 /\
+  kalman_state_to_ubox Qops (kalman_initiate_mean Qops (Build_Universal2DBox Qops 3 4 (Some (-(1#2))) 2 6 1)) =
+    Some (Build_Universal2DBox Qops 3 4 (Some (-(1#2))) 2 6 1).
 Proof. vm_compute. repeat split; reflexivity. Qed.
